@@ -1043,6 +1043,20 @@ package evaluator
 //@   ensures[C13 C02 C06 C11] strings.only: isArr(v) && len(arr(v)) >= 1 && isStr(arr(v)[0]) && result1 == nil ==> (forall k Int :: 0 <= k && k < len(arr(v)) ==> isStr(arr(v)[k]))
 //@   ensures[C13 C02 C06 C11] numbers.only: isArr(v) && len(arr(v)) >= 1 && !isStr(arr(v)[0]) && result1 == nil ==> (forall k Int :: 0 <= k && k < len(arr(v)) ==> numOk(arr(v)[k]))
 //@   ensures[C13 C02 C08 C06 C11] failure: result1 != nil ==> result0 == nil
+// the result of sort is ordered and a rearrangement of the argument (C13): the comparators' values are proved
+// (pure.cmp), slices.SortFunc is trusted to leave a permutation that ascends w.r.t. a strict weak order (ext.gvc)
+//@ func sortArray$1
+//@   ensures[C13 C11 C02] pure.cmp: isStr(a) && isStr(b) ==> (result == -1 || result == 0 || result == 1) && ((result == 0) == (str(a) == str(b))) && ((result == -1) == (str(a) < str(b)))
+//@ func sortArray$2
+//@   ensures[C13 C05 C14 C02] pure.cmp: numOk(a) && numOk(b) ==> result == decCompare(numDec(a), numDec(b))
+//@ func sortArray
+//@   at SortFunc#1 ordered[C13 C11 C02] str: cell(valid)
+//@   at SortFunc#2 ordered[C13 C02] num: cell(valid)
+//@   ensures[C13 C02] same.length: isArr(v) && result1 == nil ==> isArr(result0) && len(arr(result0)) == len(arr(v))
+//@   ensures[C13 C11 C02] ordered.str: isArr(v) && len(arr(v)) >= 1 && isStr(arr(v)[0]) && result1 == nil ==> (forall i Int, j Int :: 0 <= i && i < j && j < len(arr(result0)) ==> isStr(arr(result0)[i]) && isStr(arr(result0)[j]) && !(str(arr(result0)[j]) < str(arr(result0)[i])))
+//@   ensures[C13 C05 C14 C02] ordered.num: isArr(v) && len(arr(v)) >= 1 && !isStr(arr(v)[0]) && result1 == nil ==> (forall i Int, j Int :: 0 <= i && i < j && j < len(arr(result0)) ==> decCompare(numDec(arr(result0)[i]), numDec(arr(result0)[j])) <= 0)
+//@   ensures[C13 C02] perm.into: isArr(v) && result1 == nil ==> (forall k Int :: 0 <= k && k < len(arr(result0)) ==> (exists m Int :: 0 <= m && m < len(arr(v)) && arr(result0)[k] == at(old(heap), arr(v), m)))
+//@   ensures[C13 C02] perm.onto: isArr(v) && result1 == nil ==> (forall m Int :: 0 <= m && m < len(arr(v)) ==> (exists k Int :: 0 <= k && k < len(arr(result0)) && arr(result0)[k] == at(old(heap), arr(v), m)))
 
 // string builtins that delegate to package strings (C02): the argument types and the library function applied
 //@ func lower
